@@ -66,8 +66,8 @@ def checkScan (fv nv : Int) (fs : List Ent) (old : Table Stamp) (out : Outcome S
   match out with
   | .ok o =>
     if !sameSet o.ts (newestSpec fv nv fs) then some "scan-not-newest"
-    else if !sameSet o.toLoad ((o.ts.filter fun (k, st) => old.get? k != some st).map (·.1)) then some "scan-load-set"
-    else if !sameSet o.toDrop ((old.filter fun (k, _) => (o.ts.get? k).isNone).map (·.1)) then some "scan-drop-set"
+    else if !sameSet o.toLoad (loadKeys o.ts old) then some "scan-load-set"
+    else if !sameSet o.toDrop (dropKeys o.ts old) then some "scan-drop-set"
     else none
   | .panic _ => some "scan-panic"
   | _ => some "scan-error"
